@@ -206,6 +206,7 @@ def plan_c05(tier, seed):
         T(qu.check_p2_init, "C05")
         T(qu.check_quantile_reads_middle, "C05")
         T(qu.check_p2_step, "C05")
+        T(qu.check_reference_invariants, "C05")
     return run_set("C05", tier, False, body)
 
 
